@@ -1,5 +1,6 @@
 import Driver.Util
 import MlModel.Model.Rebatch
+import MlModel.Model.RebatchGen
 open Lean MlModel MlModel.Rebatch
 namespace Driver.Rebatch
 
@@ -42,7 +43,8 @@ def rowFn : String → Except String (List Int → List (List Int))
   | s => .error s!"bad row function {s}"
 
 /-- `{"model":"rebatch","target":t,"ncols":n,"pad":p|null,"batches":[[{"k":kind,"r":[..]},..],..]}`
-→ `run`, plus `pulls`.  With `"op":"treefn"` and `"fn_batch","nout_kinds","g"` → `treeFn`. -/
+→ `run`, plus `pulls`.  With `"op":"treefn"` and `"fn_batch","nout_kinds","g"` (+ `"skip"`, `"poison"`) →
+`treeFnGen` (the iterator-level model of `TreeFn._iterate`; `= treeFn` when nothing fails: `C19_treefn_gen_total`). -/
 def handle (j : Json) : Except String Json := do
   let target ← Driver.getNat j "target"
   let ncols ← Driver.getNat j "ncols"
@@ -51,11 +53,24 @@ def handle (j : Json) : Except String Json := do
   | .ok "treefn" =>
     let fb ← Driver.getNat j "fn_batch"
     let kinds ← (← Driver.getArr j "nout_kinds").toList.mapM fun k => do kindOf (← k.getStr?)
-    let g ← rowFn (← Driver.getStr j "g")
+    let gname ← Driver.getStr j "g"
+    -- `callno`: the one function WITH STATE of the library (a call counter, failing calls counted): the k-th call
+    -- adds 1000·k to every element of its rows
+    let g ← if gname == "callno" then pure (fun r => [r]) else rowFn gname
     -- `Select` has no function at all (`_identity_fn`): the batch passes through untouched
     let ident := (j.getObjValAs? Bool "ident").toOption.getD false
-    let r := if ident then treeFn fb target ncols ncols id bs
-             else treeFn fb target ncols kinds.length (flatMapRows g kinds) bs
+    -- failing calls: the function raises for a group that holds a poisoned row id in its first column;
+    -- `skip` = the runner's `ignore_error`
+    let skip := (j.getObjValAs? Bool "skip").toOption.getD false
+    let poison ← match j.getObjVal? "poison" with
+      | .ok (.arr a) => a.toList.mapM (·.getInt?)
+      | _ => pure []
+    let bad : Batch Int → Bool := fun b => (b.headD default).rows.any (poison.contains ·)
+    let r := if ident then treeFnGen skip fb target ncols ncols (fun b => .ok b) bs
+             else if gname == "callno" then
+               treeFnGenS skip fb target ncols kinds.length
+                 (countingOn bad (fun k r => [r.map (· + 1000 * (k : Int))]) kinds) 0 bs
+             else treeFnGen skip fb target ncols kinds.length (failingOn bad g kinds) bs
     return Json.mkObj (outJson r)
   | .ok op => throw s!"bad op {op}"
   | .error _ =>
